@@ -40,7 +40,8 @@ Separate Extraction
   FfLimbs.equal FfLimbs.isZero
   FfConv.setBigInt FfConv.setBytes FfConv.setString FfConv.toBigIntRegular FfConv.bytesOf
   FfConv.stringOf FfConv.cmp FfConv.lexLargest FfConv.legendre FfConv.sqrt
-  FfConv.BigIntArrayToElementArray FfConv.ElementArrayToBigIntArray
+  FfConv.BigIntArrayToElementArray FfConv.ElementArrayToBigIntArray FfConv.bit FfConv.bitLen FfConv.modulus
+  FfLimbs.one FfgLimbs.one FfgLimbs.modulus FfgConv.bit FfgConv.bitLen
   FfgLimbs.mulGeneric FfgLimbs.fromMontGeneric FfgLimbs.addGeneric FfgLimbs.doubleGeneric
   FfgLimbs.subGeneric FfgLimbs.negGeneric FfgLimbs.reduceGeneric FfgLimbs.halve FfgLimbs.square
   FfgLimbs.setUint64 FfgLimbs.toUint64Regular FfgLimbs.toMont FfgLimbs.mulBy3 FfgLimbs.mulBy5
